@@ -168,7 +168,12 @@ def _build_evaluator(
         VectorUnarySum,
         VectorExpressionSum,
     )
-    from optyx.core.matrices import QuadraticForm
+    from optyx.core.matrices import (
+        FrobeniusNorm,
+        MatrixSum,
+        MatrixVariable,
+        QuadraticForm,
+    )
 
     if isinstance(expr, Constant):
         value = expr.value
@@ -232,6 +237,27 @@ def _build_evaluator(
         Q = expr.matrix
         vec_fn = _build_vector_evaluator(expr.vector, var_indices)
         return lambda x, vf=vec_fn, Q=Q: float(vf(x) @ Q @ vf(x))
+
+    elif isinstance(expr, MatrixSum):
+        # sum of all matrix elements (a symmetric matrix lists shared
+        # off-diagonal variables twice, matching MatrixSum.evaluate)
+        mat = expr.matrix
+        mat_rows = (
+            mat._variables if isinstance(mat, MatrixVariable) else mat._expressions
+        )
+        elem_fns = [_build_evaluator(e, var_indices) for row in mat_rows for e in row]
+        return lambda x, fns=elem_fns: float(sum(f(x) for f in fns))
+
+    elif isinstance(expr, FrobeniusNorm):
+        # sqrt(sum of squared matrix elements)
+        elem_fns = [
+            _build_evaluator(v, var_indices)
+            for row in expr.matrix._variables
+            for v in row
+        ]
+        return lambda x, fns=elem_fns: float(
+            np.sqrt(sum(f(x) * f(x) for f in fns))
+        )
 
     elif isinstance(expr, VectorPowerSum):
         # sum(x ** k) - efficient numpy implementation
@@ -333,8 +359,12 @@ def _build_evaluator_iterative(
         VectorSum,
         VectorVariable,
         VectorExpressionSum,
+        ElementwisePower,
+        ElementwiseUnary,
+        VectorPowerSum,
+        VectorUnarySum,
     )
-    from optyx.core.matrices import QuadraticForm
+    from optyx.core.matrices import FrobeniusNorm, MatrixSum, QuadraticForm
 
     # Stack for iterative traversal: (expression, phase, children_fns)
     # phase 0: first visit, phase 1: children processed
@@ -428,6 +458,22 @@ def _build_evaluator_iterative(
             Q = node.matrix
             vec_fn = _build_vector_evaluator(node.vector, var_indices)
             result_stack.append(lambda x, vf=vec_fn, Q=Q: float(vf(x) @ Q @ vf(x)))
+            continue
+
+        # Remaining vector/matrix reductions - not deeply nested, so the
+        # recursive builder handles them exactly as on shallow trees
+        if isinstance(
+            node,
+            (
+                VectorPowerSum,
+                VectorUnarySum,
+                ElementwisePower,
+                ElementwiseUnary,
+                MatrixSum,
+                FrobeniusNorm,
+            ),
+        ):
+            result_stack.append(_build_evaluator(node, var_indices))
             continue
 
         # Binary operation
